@@ -210,9 +210,10 @@ def run(ctx):
                                (g.sn(n['ch'][0]) or {}).get('mn') == 'next'
                                for g in lib_core.with_helpers(fb, f) for n in g.own_nodes())
                 ctx.instance(rf, key + tag, dict(fifo=bool(fifo), reverses=reverses))
-                if bool(fifo) != reverses:
-                    ctx.report(rf, key, f.where, 'GetHead %s the LIFO arrival list although FIFO=%s' % (
-                        'reverses' if reverses else 'does not reverse', bool(fifo)))
+                # FIFO=false promises no order (reversing there as well is allowed); that the FIFO=true chain really
+                # runs oldest-first is decided by R-SHAPE (direction of the returned chain)
+                if fifo and not reverses:
+                    ctx.report(rf, key, f.where, 'GetHead does not reverse the LIFO arrival list although FIFO=True')
         # guards
         for f in fb.fn.values():
             if f.qn == 'yaclib::detail::Guard::~Guard' and f.cfg is not None:
